@@ -96,7 +96,8 @@ def parse_reports(paths_or_text):
                                or "random.c" in fm.group(2) or "pcg" in fm.group(2)):
                         where = "%s %s" % (fm.group(1), os.path.basename(fm.group(2)))
                         break
-                out.append({"tool": "asan", "kind": m.group(1), "where": where})
+                kind = {"attempting": "bad-free", "requested": "allocation-size-too-big"}.get(m.group(1), m.group(1))
+                out.append({"tool": "asan", "kind": kind, "where": where})
             m = UBSAN_RE.search(ln)
             if m:
                 loc = ln.split(": runtime error")[0].strip()
